@@ -203,7 +203,7 @@ def single_def(body, l):
     return ds[0] if len(ds) == 1 else None
 
 
-VALUE_THROUGH = re.compile(r'::(abs|copied|cloned|clone|unwrap_or|unwrap_or_default|unwrap|expect|deref|deref_mut|borrow|borrow_mut|as_ref|as_mut|into|from|get|get_mut|into_mut|or_insert|or_insert_with|or_default|and_modify)(::<.*>)?$')
+VALUE_THROUGH = re.compile(r'::(abs|copied|cloned|clone|unwrap_or|unwrap_or_default|unwrap|expect|deref|deref_mut|borrow|borrow_mut|as_ref|as_mut|into|from|get|get_mut|into_mut|or_insert|or_insert_with|or_default|and_modify|map|map_or|map_or_else|remove|take)(::<.*>)?$')
 
 
 def rooted_in(body, o, is_root_call, depth=16):
@@ -290,6 +290,11 @@ def enum_as_int(body, o, adt_suffix, names):
         return names.get(int(mm.group(1))) if mm else None
     if o['k'] not in ('copy', 'move'): return None
     e = T.expr(body, o, depth=10)
+    w = T.strip_wrappers(e)                      # `Enum::V.into()` / `i32::from(Enum::V)`: the variant value itself under a conversion
+    if w[0] == 'agg' and not w[2] and '::' in w[1]:
+        owner, _, name = w[1].rpartition('::')
+        if (owner == adt_suffix or owner.endswith('::' + adt_suffix) or adt_suffix.endswith('::' + owner)) and name in names.values(): return name
+        return None
     leaves = [x for x in T.expr_walk(e) if x[0] in ('const', 'place', 'local', 'call')]
     if not leaves or any(x[0] != 'const' for x in leaves): return None
     hit = None
@@ -501,53 +506,114 @@ def closure_of_operand(body, o):
     return []
 
 
-def keeps_only_non_negligible(ctx, cb):
-    """FILTER idiom on the term iterator: the predicate closure `cb` may drop an item only when a NEGLIGIBLE test on the
-    item's own coefficient says so (then the adaptor is the skip test of the loop, moved into the pipeline)"""
+def implies_small(ctx, cb, retval, depth=3):
+    """Predicate bodies (closures / small fns returning bool) over a term's coefficient: whenever `cb` returns `retval`, a NEGLIGIBLE
+    test on a value coming from its argument (param 2) says "negligible".  Shapes: the returned bool is such a test (or its copy /
+    negation); constants assigned on paths that passed the small side of such a test (`a && b`, `!nan && big`); the result of another
+    crate body called on a value from the argument (`let negligible = |c| ..; .filter(|(_, c)| !negligible(*c))`), negated or not."""
+    if cb is None or cb.argc < 2 or depth == 0: return False
     tests = [t for t in negligible_tests(ctx, cb, cb.live) if 2 in ctx.S.slice_operand(cb, t[2]).params]
-    if not tests: return False
-    big_true = {}          # bool local -> True if `true` means "not negligible"
+    small_true = {}         # bool local -> True if `true` means "negligible"
     tiny = set()
-    for bi, st, x, small_true, kind in tests:
-        big_true[st['dst']['l']] = not small_true
+    for bi, st, x, st_small, kind in tests:
+        small_true[st['dst']['l']] = st_small
         for sb, neg in T.bool_flow(cb, st['dst']['l']):
             t, f = T.switch_sides(cb, sb, neg)
-            small = t if small_true else f
+            small = t if st_small else f
             if small is not None: tiny.add(small)
-    def polarity(l, depth=6):
-        """does bool local l mean "keep because not negligible" (True) / its negation (False) / unknown (None)"""
-        if l in big_true: return big_true[l]
-        d = single_def(cb, l)
-        if d is None or depth == 0: return None
-        if d[0] == 'call':
-            c = [y for y in cb.calls if y.bb == d[1]][0]
-            if T.NOT_CALL.search(c.name) and c.arg_local(0) is not None:
-                p = polarity(c.arg_local(0), depth - 1); return None if p is None else not p
-            return None
-        rv = d[2]['rv']
-        if rv['k'] == 'use' and rv['ops'][0]['k'] in ('copy', 'move') and not rv['ops'][0]['pl']['p']: return polarity(rv['ops'][0]['pl']['l'], depth - 1)
-        if rv['k'] == 'un' and rv['op'] == 'Not' and rv['ops'][0]['k'] in ('copy', 'move'):
-            p = polarity(rv['ops'][0]['pl']['l'], depth - 1); return None if p is None else not p
-        return None
+    def holds(l, val, d=6):
+        """local l == val  =>  negligible ?"""
+        if l in small_true: return small_true[l] == val
+        df = single_def(cb, l) if l != 0 else None
+        if l == 0:
+            ds = [x for x in cb.defs_of(0) if not (x[0] == 'stmt' and x[2]['dst']['p'])]
+            df = ds[0] if len(ds) == 1 else None
+        if df is None or d == 0: return False
+        if df[0] == 'call':
+            c = [y for y in cb.calls if y.bb == df[1]][0]
+            if T.NOT_CALL.search(c.name) and c.arg_local(0) is not None: return holds(c.arg_local(0), not val, d - 1)
+            cb2 = ctx.F.bodies.get(c.path) or ctx.F.bodies.get(c.name)
+            if cb2 is not None and cb2 is not cb and any(a['k'] in ('copy', 'move') and 2 in ctx.S.slice_operand(cb, a).params for a in c.args):
+                return implies_small(ctx, cb2, val, depth - 1)
+            return False
+        rv = df[2]['rv']; o = rv['ops'][0] if rv.get('ops') else None
+        if rv['k'] == 'use' and o['k'] in ('copy', 'move') and not o['pl']['p']: return holds(o['pl']['l'], val, d - 1)
+        if rv['k'] == 'un' and rv['op'] == 'Not' and o['k'] in ('copy', 'move'): return holds(o['pl']['l'], not val, d - 1)
+        return False
     defs = [d for d in cb.defs_of(0) if not (d[0] == 'stmt' and d[2]['dst']['p'])]
     if not defs: return False
+    if len(defs) == 1: return holds(0, retval)
     for k, bi, d in defs:
         if k != 'stmt': return False
         rv = d['rv']; o = rv['ops'][0] if rv.get('ops') else None
-        if rv['k'] == 'use' and o['k'] == 'const' and o['v'] == 'true': continue
-        if rv['k'] == 'use' and o['k'] == 'const' and o['v'] == 'false':
-            if not must_pass_v(cb, 0, {bi}, tiny): return False          # a drop that no test on the coefficient justifies
+        if rv['k'] == 'use' and o['k'] == 'const' and o['v'] in ('true', 'false'):
+            if (o['v'] == 'true') != retval: continue
+            if not must_pass_v(cb, 0, {bi}, tiny): return False          # returns `retval` on a path that no test on the coefficient justifies
             continue
-        if rv['k'] in ('use', 'un', 'bin'):
-            # the returned bool is (a copy / negation of) a test result itself: false <=> negligible
-            tmp = d['dst']['l']
-            p = big_true.get(tmp)
-            if p is None and rv['k'] == 'use' and o['k'] in ('copy', 'move'): p = polarity(o['pl']['l'])
-            if p is None and rv['k'] == 'un' and rv['op'] == 'Not' and o['k'] in ('copy', 'move'):
-                q = polarity(o['pl']['l']); p = None if q is None else not q
-            if p is True: continue
+        if rv['k'] == 'use' and o['k'] in ('copy', 'move') and not o['pl']['p'] and holds(o['pl']['l'], retval): continue
+        if rv['k'] == 'un' and rv['op'] == 'Not' and o['k'] in ('copy', 'move') and holds(o['pl']['l'], not retval): continue
+        if rv['k'] == 'bin' and d['dst']['l'] in small_true and small_true[d['dst']['l']] == retval: continue
         return False
     return True
+
+
+def keeps_only_non_negligible(ctx, cb):
+    """FILTER idiom on the term iterator: the predicate may drop an item (return false) only when the item's coefficient is negligible
+    (then the adaptor is the skip test of the loop, moved into the pipeline)"""
+    return implies_small(ctx, cb, False)
+
+
+def empty_when(ctx, cb):
+    """PARTITION / FILTER predicate over a term: returns the bool value that means "the term has no ids" when the closure's result is
+    an EMPTY test (EMPTY table) on a value from its argument, directly or negated; else None"""
+    tests = {l: emp for l, bb, emp, recv in emptiness_tests(cb, lambda c: 2 in ctx.S.slice_operand(cb, c.args[0]).params)}
+    def val(l, d=6):
+        if l in tests: return tests[l]
+        ds = [x for x in cb.defs_of(l) if not (x[0] == 'stmt' and x[2]['dst']['p'])]
+        if len(ds) != 1 or d == 0: return None
+        df = ds[0]
+        if df[0] == 'call':
+            c = [y for y in cb.calls if y.bb == df[1]][0]
+            if T.NOT_CALL.search(c.name) and c.arg_local(0) is not None:
+                v = val(c.arg_local(0), d - 1); return None if v is None else not v
+            return None
+        rv = df[2]['rv']; o = rv['ops'][0] if rv.get('ops') else None
+        if rv['k'] == 'use' and o['k'] in ('copy', 'move') and not o['pl']['p']: return val(o['pl']['l'], d - 1)
+        if rv['k'] == 'un' and rv['op'] == 'Not' and o['k'] in ('copy', 'move'):
+            v = val(o['pl']['l'], d - 1); return None if v is None else not v
+        return None
+    return val(0)
+
+
+def partition_class(ctx, body, lo):
+    """(partition call, 'empty' | 'nonempty') when the loop iterates one component of `it.partition(pred)` whose predicate is an
+    EMPTY test on the term's ids: component 0 holds the items for which pred is true"""
+    l = lo[0].arg_local(0)
+    for _ in range(12):
+        if l is None: return None
+        d = single_def(body, l)
+        if d is None: return None
+        if d[0] == 'call':
+            c = [y for y in body.calls if y.bb == d[1]][0]
+            if c.item in ('into_iter', 'iter', 'iter_mut', 'deref', 'deref_mut', 'as_slice', 'drain') and c.args: l = c.arg_local(0); continue
+            return None
+        rv = d[2]['rv']
+        pl = rv['ops'][0]['pl'] if rv['k'] == 'use' and rv['ops'][0]['k'] in ('copy', 'move') else (rv['pl'] if rv['k'] == 'ref' else None)
+        if pl is None: return None
+        fs = [q for q in pl['p'] if isinstance(q, dict) and 'f' in q]
+        if fs and fs[0].get('of') == 'tuple' and fs[0]['f'] in ('0', '1'):
+            dp = single_def(body, pl['l'])
+            if dp and dp[0] == 'call':
+                pc = [y for y in body.calls if y.bb == dp[1]][0]
+                if pc.item == 'partition' and 'Iterator' in (pc.trait or '') and len(pc.args) == 2:
+                    for cn in closure_of_operand(body, pc.args[1]):
+                        ev = empty_when(ctx, ctx.F.bodies.get(cn)) if ctx.F.bodies.get(cn) is not None else None
+                        if ev is None: return None
+                        comp_true = fs[0]['f'] == '0'
+                        return (pc, 'empty' if comp_true == ev else 'nonempty')
+            return None
+        l = pl['l']
+    return None
 
 
 def variant_discr(ctx, adt_variant):
@@ -751,8 +817,11 @@ def export_rules(ctx, name, keyty, qubo):
     stage_loops = [u for u, f in stages] + [lo]
     any_item = lambda s: any(l[0] in s.call_objs for l in stage_loops)
     # adaptors that survive normalisation (pipeline kept in a local): only a `filter` that is the skip test itself may drop terms
+    # GROUPED TERMS: `partition(|(ids, _)| ids.is_empty())` hands the constant terms and the variable terms to two loops
+    pclass = partition_class(ctx, body, lo)
+    siblings = [l2 for l2 in loops if l2 is not lo and pclass is not None and (partition_class(ctx, body, l2) or (None, None))[0] is pclass[0]]
     restr = []
-    for l_ in stage_loops:
+    for l_ in stage_loops + siblings:
         for x in sl(l_[0].args[0]).call_objs:
             if x.item not in RESTRICTING or 'Iterator' not in (x.trait or ''): continue
             cbs = [ctx.F.bodies.get(cn) for cn in closure_of_operand(body, x.args[1])] if x.item == 'filter' and len(x.args) == 2 else []
@@ -811,6 +880,18 @@ def export_rules(ctx, name, keyty, qubo):
     for c in body.calls:
         m = T.ASSIGN_CALL.match(c.name)
         if m and m.group(1) == 'Add' and c.bb in blocks and map_rooted(c.args[0]) and from_item(sl(c.args[1])): adds.append((c.bb, 'add_assign'))
+        # TAKE-OUT / PUT-BACK: `map.remove(&k).map_or(c, |old| old + c)` / `.map(|old| old + c)`: the sum is formed in the closure of an
+        # Option combinator whose receiver is the value taken out of (or read from) the map
+        if c.bb in blocks and c.item in ('map', 'map_or', 'map_or_else') and re.search(r'Option::<.*>::(map|map_or|map_or_else)', c.name) and c.args and map_rooted(c.args[0]):
+            for cn in closure_of_operand(body, c.args[-1]):
+                cb = ctx.F.bodies.get(cn)
+                if cb is None or cb.argc < 2: continue
+                for bi, st in cb.stmts():
+                    rv = st['rv']
+                    if rv['k'] == 'bin' and rv['op'] == 'Add' and rv.get('ty') == 'f64':
+                        srcs = [S.slice_operand(cb, o).params for o in rv['ops']]
+                        if (2 in srcs[0] and 1 in srcs[1] and 2 not in srcs[1]) or (2 in srcs[1] and 1 in srcs[0] and 2 not in srcs[0]):
+                            if from_item(sl(c.args[-1])): adds.append((c.bb, c.item + '(+)'))
     ctx.check(bool(adds), R + '/accumulate/add', 'T-BRANCHFX', body.name, 'existing entry is not updated with `+= c`', body.site(nextc.bb))
     zero_ins = []; badi = []
     for c, v in ins:
@@ -850,6 +931,13 @@ def export_rules(ctx, name, keyty, qubo):
             ctx.counters['cfg_paths'] += 1
             if rm and must_pass_v(body, small, {header}, {c.bb for c in rm}):
                 okk = True; rm_bbs |= {c.bb for c in rm}; big_sides.append((sb, small))
+            else:
+                # take-out / put-back: the entry was removed under the term's key BEFORE the test (the removal dominates it) and the
+                # small side puts nothing back
+                pre_rm = [c for c in removals(blocks) if body.dominates(c.bb, bi) and c.bb != bi]
+                puts = [c for c in mapcalls if c.bb in sreg and c.item in ('insert', 'entry', 'or_insert', 'or_insert_with', 'or_default', 'get_mut')]
+                if pre_rm and not puts:
+                    okk = True; rm_bbs |= {c.bb for c in pre_rm}; big_sides.append((sb, small))
         if okk: filt_bbs.add(bi)
         else: badp.append(bi)
     if post:
@@ -921,21 +1009,29 @@ def export_rules(ctx, name, keyty, qubo):
                         m2 = {v: tg for v, tg in t2['ts']}
                         te, to = m2.get(d_empty, t2['else']), m2.get(d_other, t2['else'])
                         if te != to: empties.append(te)
+        def offset_adds(region, nx):
+            """f64 additions in `region` with exactly one operand coming out of the loop item `nx` (the increment)"""
+            out = []
+            for bi, st in body.stmts():
+                rv = st['rv']
+                if bi in region and rv['k'] == 'bin' and rv['op'] == 'Add' and rv.get('ty') == 'f64':
+                    if sum(1 for o in rv['ops'] if rooted_in(body, o, lambda c: c is nx)) == 1: out.append(bi)
+            return out
+        const_next = nextc
         for empty_bb in empties:
-            for _once in (0,):
-                treg = body.reach([empty_bb], stop={header})
-                if treg & wbbs: continue
-                for bi, st in body.stmts():
-                    rv = st['rv']
-                    if bi not in treg or rv['k'] != 'bin' or rv['op'] != 'Add' or rv.get('ty') != 'f64': continue
-                    acc = resolve_ref_local(body, st['dst'])
-                    if acc is None: continue
-                    selfop = [o for o in rv['ops'] if o['k'] in ('copy', 'move') and resolve_ref_local(body, o['pl']) == acc]
-                    other = [o for o in rv['ops'] if o not in selfop]
-                    if not selfop or not other or not from_item(sl(other[0])): continue
-                    if not must_pass_v(body, empty_bb, {header}, {bi}): continue
-                    okc.append((acc, bi)); via.add(empty_bb)
-        if okc: constant_rules(ctx, R, body, okc[0][1], nextc)
+            treg = body.reach([empty_bb], stop={header})
+            if treg & wbbs: continue
+            for bi in offset_adds(treg, nextc):
+                if not must_pass_v(body, empty_bb, {header}, {bi}): continue
+                okc.append((None, bi)); via.add(empty_bb)
+        if not okc and pclass is not None and pclass[1] == 'nonempty':
+            # the constant terms are the other component of the partition: its loop adds every item's coefficient to the offset
+            for l2 in siblings:
+                if partition_class(ctx, body, l2)[1] != 'empty' or not all(body.dominates(l2[1], e) for e in body.strict_ok_exits()): continue
+                for bi in offset_adds(l2[4], l2[0]):
+                    ctx.counters['cfg_paths'] += 1
+                    if must_pass_v(body, l2[2], {l2[1]}, {bi}): okc.append((None, bi)); const_next = l2[0]
+        if okc: constant_rules(ctx, R, body, okc[0][1], const_next)
         ctx.check(bool(okc), R + '/constant/empty-ids', 'T-BRANCHFX', body.name, 'terms with no ids are not accumulated into the offset', body.site())
     ctx.counters['cfg_paths'] += 1
     lost = None if must_pass_v(body, some_bb, {header}, via) else nextc.bb
